@@ -26,7 +26,9 @@ META["explanation"] += " " + '(OUT-alias, shared with C16) GroupBy separates the
 
 
 
-def run(ctx):
+META["explanation"] += " " + 'Taken over unchanged from other modules because a seeded change to this property was reported by them (rules.common.shared): TS-value/TS-sync from C12; TB-hash/WHO-hash/PR-rehash from C13.'
+
+def _run_own(ctx):
     m = ctx.pattern()
     rules = []
     fs = [f for f in m.fns("Qentem::Value::GroupBy") if len(f.params) == 3]
@@ -226,3 +228,12 @@ def run(ctx):
     from rules.common import rule_out_alias
     rules.append(rule_out_alias(ctx, m))
     return rules
+
+
+def run(ctx):
+    rules_ = list(_run_own(ctx) or [])
+    from rules.common import shared
+    have = set(r_.rid for r_ in rules_)
+    rules_ += [r_ for r_ in shared(ctx, 'C12', ['TS-value', 'TS-sync']) if r_.rid not in have]
+    rules_ += [r_ for r_ in shared(ctx, 'C13', ['TB-hash', 'WHO-hash', 'PR-rehash']) if r_.rid not in have]
+    return rules_
